@@ -205,6 +205,14 @@ def native_part(art, tier, stats, fnd):
                         ("empty_file", {"main.sy": ""}), ("no_trailing_newline", {"main.sy": "start :: fn do end"}), ("only_comment", {"main.sy": "// nothing"}), ("nul_byte", {"main.sy": "start :: fn do\n\0\nend\n"})]:
         st, dt, out = native_run(art["sylt"], files); n += 1
         if st != "ok": fnd.report("native-%s:%s" % (st, name), "%s: %s %s" % (name, st, out.replace("\n", " ")[-200:]), files)
+    # errors rendered with long, non-ASCII context lines (every alignment of the multi-byte characters relative to any fixed byte width)
+    for k in range(4):
+        for width in (60, 100):
+            long_line = "    s%d := \"%s%s\"" % (k, "x" * k, "åö€" * width)
+            for name, files in (("type_error_below_long_line", {"main.sy": "start :: fn do\n" + long_line + "\n    y := 1 + \"a\"\nend\n"}), ("syntax_error_on_long_line", {"main.sy": "start :: fn do\n" + long_line + " )\nend\n"}),
+                                ("long_comment_above_error", {"main.sy": "// " + "x" * k + "éß" * width + "\nstart :: fn do\n    y := nope\nend\n"})):
+                st, dt, out = native_run(art["sylt"], files); n += 1
+                if st != "ok": fnd.report("native-%s:%s" % (st, name), "%s (offset %d, %d characters): %s %s" % (name, k, 3 * width, st, out.replace("\n", " ")[-200:]), files); break
     # how `start` is bound in the main file (alias, namespace, import) and odd path arguments
     for name, files in [("start_is_alias_of_import", {"main.sy": "from other use run as start\n", "other.sy": "run :: fn do end\n"}), ("start_is_namespace", {"main.sy": "use start\n", "start.sy": "x :: 1\n"}),
                         ("start_is_namespace_alias", {"main.sy": "use other as start\n", "other.sy": "x :: 1\n"}), ("start_imported_by_name", {"main.sy": "from other use start\n", "other.sy": "start :: fn do end\n"}),
